@@ -65,15 +65,23 @@ class AssemblerError(Exception):
         return '{}\nAssemblerError: {}'.format(self.line, self.message)
 
 
+def printable(obj):
+    # str() of an integer beyond sys.get_int_max_str_digits() raises ValueError
+    try:
+        return str(obj)
+    except ValueError:
+        return '<{} too large to print>'.format(type(obj).__name__)
+
+
 def log_constant(pass_name, item, value):
     s = '{}: file {}, line {}: "{}" -> "{} = 0x{:08x} ({})"'
-    s = s.format(pass_name, os.path.basename(item.line.file), item.line.number, item, item.name, value, value)
+    s = s.format(pass_name, os.path.basename(item.line.file), item.line.number, printable(item), item.name, value, printable(value))
     log.info(s)
 
 
 def log_conversion(pass_name, item_a, item_b):
     s = '{}: file {}, line {}: "{}" -> "{}"'
-    s = s.format(pass_name, os.path.basename(item_a.line.file), item_a.line.number, item_a, item_b)
+    s = s.format(pass_name, os.path.basename(item_a.line.file), item_a.line.number, printable(item_a), printable(item_b))
     log.info(s)
 
 
@@ -1174,7 +1182,7 @@ class Arithmetic(Expr):
         # ensure resulting value is an integer
         if type(result) != int:
             s = 'result "{}" is not an integer from expr: "{}"'
-            s = s.format(result, self.expr)
+            s = s.format(printable(result), self.expr)
             raise AssemblerError(s, line)
 
         return result
